@@ -3,6 +3,7 @@ package props
 import (
 	"bytes"
 	"fmt"
+	"sync"
 
 	"github.com/hujm2023/go-sms-protocol/cmpp"
 
@@ -139,12 +140,17 @@ type oversizeCase struct {
 	elem  bool
 }
 
-var oversizeCache []oversizeCase
+var (
+	oversizeCache []oversizeCase
+	oversizeOnce  sync.Once
+)
 
 func c01OversizeCases(ts *pdus.Tables) []oversizeCase {
-	if oversizeCache != nil {
-		return oversizeCache
-	}
+	oversizeOnce.Do(func() { oversizeCache = buildOversizeCases(ts) })
+	return oversizeCache
+}
+
+func buildOversizeCases(ts *pdus.Tables) []oversizeCase {
 	var l []oversizeCase
 	for _, t := range ts.Types {
 		for i, f := range t.Fields {
@@ -160,7 +166,6 @@ func c01OversizeCases(ts *pdus.Tables) []oversizeCase {
 			}
 		}
 	}
-	oversizeCache = l
 	return l
 }
 
